@@ -37,14 +37,19 @@ def run(ctx, rep):
     # ------------------------------------------------------------------ R1 key agreement
     d = {utext(s.targets[0]): utext(s.value) for s in walk_nodes(pco.node.body, ast.Assign)}
     gets = [c for c in walk_calls(pco.node.body) if call_name(c) == "get_order"]
-    good = d.get("order_id") == "current_order.customer_order_ref[STRATEGY_NAME_HASH_LENGTH + 1:]" and len(gets) == 1 and \
-        {k.arg: utext(k.value) for k in gets[0].keywords} == {"market_id": "current_order.market_id", "order_id": "order_id"}
+    from sa.kinds import resolve_local
+    ID_PART = "current_order.customer_order_ref[STRATEGY_NAME_HASH_LENGTH + 1:]"
+    good = len(gets) == 1
+    if good:
+        kw = {k.arg: utext(resolve_local(pco, k.value)) for k in gets[0].keywords}
+        good = kw == {"market_id": "current_order.market_id", "order_id": ID_PART}
     rep.check(good, "R1", key(pco, None, "lookup by (market id of the update, id part of the reference)"), pco)
     dc = {utext(s.targets[0]): utext(s.value) for s in walk_nodes(cof.node.body, ast.Assign)}
-    rep.check(dc.get("order_id") == d.get("order_id"), "R1", key(cof, None, "adoption derives the same id"), cof, None,
-              "%s vs %s" % (dc.get("order_id"), d.get("order_id")))
+    tcx = [c for c in walk_calls(cof.node.body) if call_name(c) == "create_order_from_current"]
+    same = bool(tcx) and len(tcx[0].args) == 3 and utext(resolve_local(cof, tcx[0].args[2])) == ID_PART
+    rep.check(same, "R1", key(cof, None, "adoption derives the same id"), cof)
     tc = [c for c in walk_calls(cof.node.body) if call_name(c) == "create_order_from_current"]
-    rep.check(len(tc) == 1 and [utext(a) for a in tc[0].args] == ["client", "current_order", "order_id"], "R1",
+    rep.check(len(tc) == 1 and [utext(a) for a in tc[0].args][:2] == ["client", "current_order"], "R1",
               key(cof, None, "the id is handed to the order factory"), cof)
     tf = prog.own_method("Trade", "create_order_from_current")
     rep.check(any(utext(s) == "order.id = %s" % tf.params[3] for s in walk_nodes(tf.node.body, ast.Assign)), "R1",
